@@ -74,16 +74,35 @@ def byte_matcher_language(facts, fn):
         known = {}
         whole = None
         foreign = []
+        prefix = b""
+
+        def subject(x):
+            """x is the input, or what is left of it after a strip_prefix(CONST) that succeeded on this path."""
+            x = strip_refs(x)
+            if x == ("arg", 1):
+                return True
+            if x[0] == "field" and x[3] == "0" and x[1][0] == "downcast" and x[1][2] == "Some":
+                sp = strip_refs(x[1][1])
+                if sp[0] == "call" and sp[1].endswith("::strip_prefix") and len(sp[2]) == 2 and strip_refs(sp[2][0]) == ("arg", 1) and strip_refs(sp[2][1])[0] == "const":
+                    return True
+            return False
+
         for (t, c, _bb) in lf.conds:
+            if t[0] == "discr":
+                sp = strip_refs(t[1])
+                if sp[0] == "call" and sp[1].endswith("::strip_prefix") and len(sp[2]) == 2 and strip_refs(sp[2][0]) == ("arg", 1) and strip_refs(sp[2][1])[0] == "const" and c == ("eq", 1):
+                    pv = strip_refs(sp[2][1])[1]
+                    prefix = pv if isinstance(pv, bytes) else str(pv).encode()
+                    continue
             if t[0] == "bin" and t[1] == "Eq":
                 a, b = t[2], t[3]
-                if a[0] == "un" and a[1] == "PtrMetadata" and strip_refs(a[2]) == ("arg", 1) and b[0] == "const":
+                if a[0] == "un" and a[1] == "PtrMetadata" and subject(a[2]) and b[0] == "const":
                     truth = (c == ("ne", (0,))) or (c[0] == "eq" and c[1] != 0)
                     if truth:
                         length = b[1]
                     continue
                 foreign.append(t)
-            elif t[0] == "constidx" and strip_refs(t[1]) == ("arg", 1):
+            elif t[0] == "constidx" and subject(t[1]):
                 if c[0] == "eq":
                     if t[3]:
                         foreign.append(t)
@@ -91,7 +110,7 @@ def byte_matcher_language(facts, fn):
                         known[t[2]] = c[1]
             elif t[0] == "call" and t[1].endswith("PartialEq::eq"):
                 x, y = t[2]
-                if strip_refs(x) == ("arg", 1) and strip_refs(y)[0] == "const":
+                if subject(x) and strip_refs(y)[0] == "const":
                     truth = (c == ("ne", (0,))) or (c[0] == "eq" and c[1] != 0)
                     if truth:
                         whole = strip_refs(y)[1]
@@ -102,21 +121,40 @@ def byte_matcher_language(facts, fn):
         if foreign:
             inexact.append("%s accepted under a condition that is not a direct test of the input bytes: %s" % (var, foreign[0][:2]))
             continue
+        uses_rest = any("strip_prefix" in repr(t) for (t, c, _bb) in lf.conds if not (t[0] == "discr"))
+        if prefix and not uses_rest and (whole is not None or length is not None):
+            inexact.append("%s accepted after strip_prefix but the tests are on the whole input" % var)
+            continue
+        if not prefix and uses_rest:
+            inexact.append("%s accepted on a path that looks at the stripped input without the prefix test having succeeded" % var)
+            continue
         if whole is not None:
             w = whole if isinstance(whole, bytes) else str(whole).encode()
-            accept[w] = var
+            accept[prefix + w] = var
             continue
         if length is None or any(i not in known for i in range(length)):
             inexact.append("%s accepted for a set of inputs that is not one exact string (len=%s, fixed bytes=%s)" % (var, length, sorted(known)))
             continue
-        accept[bytes(known[i] for i in range(length))] = var
+        accept[prefix + bytes(known[i] for i in range(length))] = var
     return accept, inexact
 
 
-def string_matcher(facts, fn):
+def string_matcher(facts, fn, folds=None):
     """For a matcher that compares one derived string against constants with PartialEq::eq:
-    returns (table {const: variant-or-shape}, subject term, list of leaves)."""
+    returns (table {const: variant-or-shape}, subject term, list of leaves).
+    folds: {path of a table function: {variant: constant}} -- `X::as_str(Variant)` on the constant side is its table entry."""
     leaves = PathEnum(fn, facts).run()
+
+    def const_side(y):
+        y = strip_refs(y)
+        if y[0] == "const":
+            return y[1]
+        if folds and y[0] == "call" and y[1] in folds and len(y[2]) == 1:
+            a = strip_refs(y[2][0])
+            if a[0] == "agg" and a[2] in folds[y[1]]:
+                return folds[y[1]][a[2]]
+        return None
+
     table = {}
     subjects = []
     other_ok = []
@@ -131,8 +169,10 @@ def string_matcher(facts, fn):
             if t[0] == "call" and t[1].endswith("PartialEq::eq"):
                 truth = (c == ("ne", (0,))) or (c[0] == "eq" and c[1] != 0)
                 x, y = t[2]
-                if truth and strip_refs(y)[0] == "const":
-                    hit = (strip_refs(x), strip_refs(y)[1])
+                if truth and const_side(y) is not None:
+                    hit = (strip_refs(x), const_side(y))
+                elif truth and const_side(x) is not None:
+                    hit = (strip_refs(y), const_side(x))
         if hit is None:
             other_ok.append(lf)
             continue
